@@ -1,228 +1,376 @@
-(* C07 — one request on a connection: responses, keep-alive decision and the position of the inbound
-   stream afterwards, against the sequential specification (Spec/ConnSpec.v). *)
+(* C07 — the whole connection: every lock-step history gives exactly the sequential transcript.
+   Re-exports the one-request theorems of Proofs/ServerConnOne.v. *)
 From KV Require Import Lib.Bytes Model.Headers Model.Parser Model.Body Model.Server
   Spec.HeaderStore Spec.HttpGrammar Spec.ChunkedSpec Spec.Framing Spec.ConnSpec Spec.ConnKnown
-  Proofs.Headers Proofs.ParserSound Proofs.ParserSafe Proofs.BodyBase Proofs.BodyBaseChunk
-  Proofs.ServerFraming Proofs.ServerConnBase Proofs.ServerConnSrc Proofs.ServerConnBody Proofs.ServerConnHead.
+  Proofs.ParserSound Proofs.ParserSafe Proofs.BodyBase Proofs.BodyBaseChunk
+  Proofs.ServerFraming Proofs.ServerConnBase Proofs.ServerConnSrc Proofs.ServerConnBody Proofs.ServerConnHead
+  Proofs.ServerConnCut Proofs.ServerConnLock Proofs.ServerConnLocal.
+From KV Require Export Proofs.ServerConnOne.
 
-(* ------------------------------------------------------------------ the close token of an accepted head *)
-Lemma sc_headers_of_hrun_gen : forall fs h,
-  fold_left (fun h nv => add h (fst nv) (snd nv)) fs h =
-  fold_left hstep (map (fun nv => OAdd (fst nv) (snd nv)) fs) h.
-Proof. induction fs as [|f fs IH]; intros h; [reflexivity|]. cbn [fold_left map hstep]. apply IH. Qed.
-
-Lemma sc_spec_stored_adds_gen : forall fs acc,
-  fold_left store_step (map (fun nv => OAdd (fst nv) (snd nv)) fs) acc =
-  acc ++ filter (fun f => negb (is_cl (fst f))) fs.
+(* ------------------------------------------------------------------ small facts *)
+Lemma offset_pos : forall s r, parse_request s = Ok r -> 0 < q_offset r.
 Proof.
-  induction fs as [|f fs IH]; intros acc.
-  - cbn [map fold_left filter]. rewrite app_nil_r. reflexivity.
-  - cbn [map fold_left filter store_step]. rewrite IH.
-    destruct (is_cl (fst f)) eqn:E; cbn [negb].
-    + reflexivity.
-    + rewrite <- app_assoc. cbn [List.app]. destruct f as [n v]. reflexivity.
+  intros s r H. apply request_sound in H. destruct H as [sh [Hs _]].
+  apply strict_head_exact in Hs. destruct Hs as [Hs _].
+  apply (f_equal (@length byte)) in Hs. rewrite !app_length in Hs. cbn [length] in Hs.
+  pose proof (firstn_le_length (q_offset r) s). lia.
 Qed.
 
-Lemma sc_close_fields fs : connection_close (headers_of fs) = eval_close fs.
+Lemma view_suffix : forall f ah p rest, view_body f ah = BodyOk p rest -> exists ah', ah = ah' ++ rest.
+Proof. intros f ah p rest H. destruct (view_body_cut f ah p rest H) as [ah' [E _]]. exists ah'. exact E. Qed.
+
+(* ------------------------------------------------------------------ handle_one_request by outcome of the head *)
+Definition hfuel (sg : list bytes) : nat := S (length sg) + length (concat sg).
+
+Lemma hor_eof a N ka sg : fst (read_request (hfuel sg) N [] sg) = REof ->
+  let o := handle_one_request a N ka sg in
+  o_resps o = [] /\ o_keep o = false /\ o_ok o = true /\ o_eof o = true.
 Proof.
-  unfold headers_of. rewrite sc_headers_of_hrun_gen. fold (hrun (map (fun nv => OAdd (fst nv) (snd nv)) fs)).
-  destruct (headers_inv (map (fun nv => OAdd (fst nv) (snd nv)) fs)) as [Hs [_ [Hc _]]].
-  rewrite Hc, Hs. unfold spec_stored. rewrite sc_spec_stored_adds_gen. cbn [List.app].
-  unfold eval_close. apply (eval_filter_other (bs "connection") (bs "close") (bs "content-length")).
-  vm_compute. reflexivity.
+  unfold hfuel, handle_one_request. destruct (read_request _ N [] sg) as [res sg']. cbn [fst]. intros ->.
+  cbv zeta. repeat split.
 Qed.
 
-Lemma close_agrees s r : parse_request s = Ok r -> connection_close (q_hdrs r) = eval_close (raw_fields s).
+Lemma hor_too_large a N ka sg : fst (read_request (hfuel sg) N [] sg) = RTooLarge ->
+  let o := handle_one_request a N ka sg in
+  o_resps o = [ev 431 [] true] /\ o_keep o = false /\ o_ok o = true /\ o_eof o = false.
 Proof.
-  intros H. apply request_sound in H. destruct H as [sh [Hs [_ [_ [_ Hh]]]]].
-  unfold raw_fields. rewrite Hs, Hh. apply sc_close_fields.
+  unfold hfuel, handle_one_request. destruct (read_request _ N [] sg) as [res sg']. cbn [fst]. intros ->.
+  cbv zeta. repeat split.
 Qed.
 
-(* ------------------------------------------------------------------ the reader the server builds *)
-Definition cut_src (leftover : bytes) (unread later : list bytes) (tk : option N) : src :=
-  {| bbuf := []; lo := leftover; segs := unread;
-     sfuel := 4 * S (length leftover + length (concat (unread ++ later))) + 8; stake := tk |}.
-
-Lemma cut_src_Bound leftover unread later tk : Bound (cut_src leftover unread later tk).
+Lemma hor_invalid a N ka sg : fst (read_request (hfuel sg) N [] sg) = RInvalid ->
+  let o := handle_one_request a N ka sg in
+  o_resps o = [ev 400 [] true] /\ o_keep o = false /\ o_ok o = true /\ o_eof o = false.
 Proof.
-  unfold Bound, cut_src, reach. cbn [bbuf lo segs sfuel stake List.app].
-  pose proof (length_tail3_le leftover unread tk) as H. rewrite app_length in H.
-  rewrite concat_app, app_length. lia.
+  unfold hfuel, handle_one_request. destruct (read_request _ N [] sg) as [res sg']. cbn [fst]. intros ->.
+  cbv zeta. repeat split.
 Qed.
 
-Lemma init_VB later leftover unread h payload :
-  server_framing' h <> FReject ->
-  view_body (server_framing' h) (leftover ++ concat unread) = BodyOk payload [] ->
-  exists b0, from_request leftover (unread ++ later) h = bext later b0 /\ VB b0 [] payload /\
-             Full (body_src b0) /\ segs (body_src b0) = unread.
-Proof.
-  intros Hne Hv. rewrite (reader_of_framing _ _ _ Hne).
-  destruct (server_framing' h) as [|n| |] eqn:Ef; cbn [view_body] in Hv.
-  - destruct (spec_decode (leftover ++ concat unread)) as [p rest|w|] eqn:Es; try discriminate.
-    inversion Hv. subst p rest.
-    exists (BChunked {| c_src := cut_src leftover unread later None; c_state := CSize; c_remaining := 0 |}).
-    split; [reflexivity|]. split; [|split; [exact I|reflexivity]].
-    cbn [VB]. split; [apply cut_src_Bound|]. exact Es.
-  - destruct (spec_fixed n (leftover ++ concat unread)) as [p rest|w|] eqn:Es; try discriminate.
-    inversion Hv. subst p rest. unfold spec_fixed in Es.
-    destruct (take_n n (leftover ++ concat unread)) as [[d x]|] eqn:Et; [|discriminate]. inversion Es. subst d x.
-    exists (BFixed {| f_src := cut_src leftover unread later (Some n); f_remaining := n |}).
-    split; [reflexivity|]. split; [|split; [|reflexivity]].
-    + cbn [VB f_src f_remaining]. split; [apply cut_src_Bound|]. exists payload. split; [|reflexivity].
-      exact (take_n_firstnN _ _ _ _ Et).
-    + unfold Full. cbn [body_src f_src cut_src stake lo segs].
-      apply take_n_some in Et. destruct Et as [E1 E2]. rewrite E1, app_nil_r, E2. apply N.le_refl.
-  - inversion Hv. subst payload.
-    exists (BEmpty (cut_src leftover unread later None)).
-    split; [reflexivity|]. split; [|split; [exact I|reflexivity]].
-    cbn [VB]. split; [apply cut_src_Bound|]. split; [|reflexivity].
-    unfold reach, cut_src, tail3. cbn [bbuf lo segs stake List.app]. assumption.
-  - contradiction.
-Qed.
+(* ------------------------------------------------------------------ handle_connection, one step *)
+Lemma hc_stop f a N ka sg acc n : o_ok (handle_one_request a N ka sg) = true ->
+  o_keep (handle_one_request a N ka sg) = false ->
+  c_resps (handle_connection (S f) a N ka sg acc n) = acc ++ o_resps (handle_one_request a N ka sg) /\
+  c_waiting (handle_connection (S f) a N ka sg acc n) = o_eof (handle_one_request a N ka sg).
+Proof. intros H1 H2. cbn [handle_connection]. cbv zeta. rewrite H1, H2. cbn [negb]. split; reflexivity. Qed.
 
-(* ------------------------------------------------------------------ the specification on a readable body *)
-Lemma spec_one_ok a r raw ah payload rest : rfc_framing raw <> FReject ->
+Lemma hc_err f a N ka sg acc n : o_ok (handle_one_request a N ka sg) = false ->
+  c_resps (handle_connection (S f) a N ka sg acc n) = acc ++ o_resps (handle_one_request a N ka sg) /\
+  c_waiting (handle_connection (S f) a N ka sg acc n) = false.
+Proof. intros H1. cbn [handle_connection]. cbv zeta. rewrite H1. cbn [negb]. split; reflexivity. Qed.
+
+Lemma hc_cont f a N ka sg acc n : o_ok (handle_one_request a N ka sg) = true ->
+  o_keep (handle_one_request a N ka sg) = true ->
+  exists n', handle_connection (S f) a N ka sg acc n =
+    handle_connection f a N (ka && negb (existsb rs_close (o_resps (handle_one_request a N ka sg))))
+      (o_rest (handle_one_request a N ka sg)) (acc ++ o_resps (handle_one_request a N ka sg)) n'.
+Proof. intros H1 H2. cbn [handle_connection]. cbv zeta. rewrite H1, H2. cbn [negb]. eexists. reflexivity. Qed.
+
+(* ------------------------------------------------------------------ the specification: keep implies no close *)
+Lemma spec_keep_no_close a r raw ah payload rest resps keep rest' : rfc_framing raw <> FReject ->
   view_body (rfc_framing raw) ah = BodyOk payload rest ->
-  spec_one a r raw ah =
-  match hook_of a r with
-  | HAnswer => ([ev 200 (bs "hook") false], negb (eval_close raw) && true, rest)
-  | HAnswerClose => ([ev 200 (bs "hook") true], false, rest)
-  | HProceed =>
-      match behaviour_of a r with
-      | BAll => ([ev 200 (describe a r payload) false], negb (eval_close raw), rest)
-      | BReadK k => ([ev 200 (describe a r (firstn_bytes k payload)) false], negb (eval_close raw) && true, rest)
-      | BNone st => ([ev st (describe a r []) false], negb (eval_close raw) && true, rest)
-      | BFirst => ([ev 200 (describe a r []) false], negb (eval_close raw) && true, rest)
-      | BHold => ([ev 200 (describe a r []) false], negb (eval_close raw) && true, rest)
-      | BErr => ([], false, [])
-      | BErrAfter => ([ev 200 (describe a r []) false], false, [])
-      | BClose => ([ev 200 (describe a r []) true], false, rest)
-      | BReader n => ([ev 200 (reader_payload n) false], negb (eval_close raw) && true, rest)
-      end
-  end.
+  spec_one a r raw ah = (resps, keep, rest') -> keep = true -> existsb rs_close resps = false /\ rest' = rest.
 Proof.
-  intros Hne Hv. unfold spec_one.
-  destruct (rfc_framing raw); try contradiction; rewrite Hv; reflexivity.
+  intros Hne Hv. rewrite (spec_one_ok a r raw ah payload rest Hne Hv).
+  destruct (hook_of a r); [destruct (behaviour_of a r)| |]; intros E; inversion E; subst;
+    intros Hk; try discriminate; split; reflexivity.
 Qed.
 
-(* ------------------------------------------------------------------ position after the reader is dropped *)
-Lemma drop_pos later reqsegs b0 b' acc p : Full (body_src b0) -> TailOf reqsegs (segs (body_src b0)) ->
-  R (body_src b0) (body_src b') -> VB b' acc p ->
-  exists pre z, reqsegs = pre ++ z /\ concat z = [] /\ after_drop (bext later b') = z ++ later.
+Lemma spec_one_rest_indep a r raw ah1 ah2 payload rest1 rest2 : rfc_framing raw <> FReject ->
+  view_body (rfc_framing raw) ah1 = BodyOk payload rest1 ->
+  view_body (rfc_framing raw) ah2 = BodyOk payload rest2 ->
+  fst (spec_one a r raw ah1) = fst (spec_one a r raw ah2).
 Proof.
-  intros Hf Ht [HR1 HR2] HV.
-  destruct (after_drop_VB later reqsegs b' acc p HV (HR2 Hf) (TailOf_trans _ _ _ Ht HR1)) as [z [Z1 [Z2 Z3]]].
-  destruct (TailOf_empty _ _ Z3 Z2) as [pre Hpre]. exists pre, z. repeat split; assumption.
+  intros Hne H1 H2. rewrite (spec_one_ok a r raw ah1 payload rest1 Hne H1), (spec_one_ok a r raw ah2 payload rest2 Hne H2).
+  destruct (hook_of a r); [destruct (behaviour_of a r)| |]; reflexivity.
 Qed.
 
-(* ------------------------------------------------------------------ one request *)
-Theorem one_request_boundary_gen : forall a N ka reqsegs later r raw,
-  parse_request (firstn N (concat reqsegs)) = Ok r ->
-  raw = raw_fields (firstn N (concat reqsegs)) ->
-  (exists payload, rfc_framing raw <> FReject /\
-     view_body (rfc_framing raw) (skipn (q_offset r) (concat reqsegs)) = BodyOk payload []) ->
-  let o := handle_one_request a N ka (reqsegs ++ later) in
-  let '(resps, keep, _) := spec_one a r raw (skipn (q_offset r) (concat reqsegs)) in
-  o_resps o = resps /\ (o_ok o = true -> o_keep o = (keep && ka && negb (existsb rs_close resps))) /\
-  (* the server stands exactly behind the body: only segments without bytes can be left of this request *)
-  exists pre z, reqsegs = pre ++ z /\ concat z = [] /\ o_rest o = z ++ later.
+Lemma spec_one_bad a r raw ah : rfc_framing raw <> FReject -> view_body (rfc_framing raw) ah = BodyBad ->
+  hook_of a r = HProceed -> behaviour_of a r = BAll -> spec_one a r raw ah = ([], false, []).
 Proof.
-  intros a N ka reqsegs later r raw Hparse Hraw [payload [Hnr Hview]].
-  destruct (read_request_split (S (length (reqsegs ++ later)) + length (concat (reqsegs ++ later))) N reqsegs later r Hparse)
-    as [buf [unread [Hrr [Hcat [Htail [Hlen Hpb]]]]]].
-  { rewrite concat_app, !app_length. lia. }
-  pose proof (framing_decision _ _ Hparse) as Hfr. rewrite <- Hraw in Hfr.
-  pose proof (close_agrees _ _ Hparse) as Hcl. rewrite <- Hraw in Hcl.
-  destruct (request_fields_safe _ _ Hpb) as [Hoff _].
-  assert (Hah : skipn (q_offset r) (concat reqsegs) = skipn (q_offset r) buf ++ concat unread).
-  { rewrite <- Hcat, skipn_app. replace (q_offset r - length buf) with 0 by lia. reflexivity. }
-  rewrite Hah in *.
-  destruct (init_VB later (skipn (q_offset r) buf) unread (q_hdrs r) payload) as [b0 [Hb0 [HV [Hfull Hsegs]]]].
-  { rewrite Hfr. exact Hnr. }
-  { rewrite Hfr. exact Hview. }
-  assert (Ht0 : TailOf reqsegs (segs (body_src b0))) by (rewrite Hsegs; exact Htail).
-  assert (Hlt : length payload < body_fuel b0).
-  { destruct (VB_rest _ _ _ HV) as [q [Hq Hl]]. cbn [List.app] in Hq. subst q. exact Hl. }
-  rewrite (spec_one_ok a r raw _ payload [] Hnr Hview).
-  cbv zeta. unfold handle_one_request.
-  match goal with |- context [read_request ?f ?n ?x ?y] =>
-    replace (read_request f n x y) with (RParsed buf r, unread ++ later) by (symmetry; exact Hrr) end.
+  intros Hne Hv Hh Hb. unfold spec_one. destruct (rfc_framing raw); try contradiction; rewrite Hv, Hh, Hb; reflexivity.
+Qed.
+
+(* ------------------------------------------------------------------ a head that was read *)
+Lemma read_parsed N sg r : parse_request (firstn N (concat sg)) = Ok r ->
+  exists buf unread, read_request (hfuel sg) N [] sg = (RParsed buf r, unread) /\
+    buf ++ concat unread = concat sg /\ q_offset r <= length buf.
+Proof.
+  intros Hp. destruct (read_request_split (hfuel sg) N sg [] r Hp) as [buf [unread [H1 [H2 [_ [_ H5]]]]]].
+  { unfold hfuel. lia. }
+  rewrite !app_nil_r in H1. exists buf, unread. split; [exact H1|]. split; [exact H2|].
+  apply (request_fields_safe _ _ H5).
+Qed.
+
+(* a request that cannot be framed: 400 *)
+Lemma hor_reject a N ka sg r : parse_request (firstn N (concat sg)) = Ok r ->
+  rfc_framing (raw_fields (firstn N (concat sg))) = FReject ->
+  let o := handle_one_request a N ka sg in
+  o_resps o = [ev 400 [] true] /\ o_keep o = false /\ o_ok o = true /\ o_eof o = false.
+Proof.
+  intros Hp Hr. destruct (read_parsed N sg r Hp) as [buf [unread [H1 _]]].
+  pose proof (framing_decision _ _ Hp) as Hfr. rewrite Hr in Hfr.
+  unfold handle_one_request. fold (hfuel sg). rewrite H1. cbv zeta.
+  unfold server_framing' in Hfr.
+  destruct (te_present (q_hdrs r) && negb (te_final_chunked (q_hdrs r))).
+  - repeat split.
+  - exfalso. destruct (Headers.chunked (q_hdrs r)); [discriminate|].
+    destruct (content_length (q_hdrs r)) as [n|]; [destruct (N.eqb n 0)|]; discriminate.
+Qed.
+
+(* a request whose body is cut short or malformed, read to the end by the handler: the error is propagated *)
+Lemma hor_bad_body a N ka sg r : parse_request (firstn N (concat sg)) = Ok r ->
+  rfc_framing (raw_fields (firstn N (concat sg))) <> FReject ->
+  view_body (rfc_framing (raw_fields (firstn N (concat sg)))) (skipn (q_offset r) (concat sg)) = BodyBad ->
+  hook_of a r = HProceed -> behaviour_of a r = BAll ->
+  let o := handle_one_request a N ka sg in o_resps o = [] /\ o_ok o = false.
+Proof.
+  intros Hp Hne Hv Hh Hb. destruct (read_parsed N sg r Hp) as [buf [unread [H1 [H2 H3]]]].
+  pose proof (framing_decision _ _ Hp) as Hfr.
+  assert (Hah : skipn (q_offset r) (concat sg) = skipn (q_offset r) buf ++ concat unread).
+  { rewrite <- H2, skipn_app. replace (q_offset r - length buf) with 0 by lia. reflexivity. }
+  rewrite Hah, <- Hfr in Hv. rewrite <- Hfr in Hne.
+  unfold handle_one_request. fold (hfuel sg). rewrite H1. cbv zeta.
   assert (Hte : te_present (q_hdrs r) && negb (te_final_chunked (q_hdrs r)) = false).
   { destruct (te_present (q_hdrs r) && negb (te_final_chunked (q_hdrs r))) eqn:E; [|reflexivity].
-    exfalso. apply Hnr. rewrite <- Hfr. unfold server_framing'. rewrite E. reflexivity. }
-  rewrite Hte, Hb0, Hcl.
-  destruct (hook_of a r) eqn:Eh.
-  - (* the handler runs *)
-    unfold run_handler. destruct (behaviour_of a r) as [|k|st| | | | | |n] eqn:Eb.
-    + (* BAll *)
-      destruct (read_to_end_VB later (body_fuel b0) b0 [] payload payload HV eq_refl Hlt) as [b' [_ [E2 [HV' HR']]]].
-      rewrite body_fuel_bext, E2. cbn [o_resps o_keep o_ok o_rest existsb rs_close ev orb negb].
-      split; [reflexivity|]. split; [intros _; destruct ka, (eval_close raw); reflexivity|].
-      exact (drop_pos later reqsegs b0 b' _ _ Hfull Ht0 HR' HV').
-    + (* BReadK *)
-      destruct (read_k_VB later (body_fuel b0) k b0 [] payload payload HV eq_refl Hlt) as [b' [_ [E2 [HV' HR']]]].
-      cbn [List.app] in E2, HV'.
-      rewrite body_fuel_bext, E2. cbn [o_resps o_keep o_ok o_rest existsb rs_close ev orb negb].
-      split; [reflexivity|]. split; [intros _; destruct ka, (eval_close raw); reflexivity|].
-      exact (drop_pos later reqsegs b0 b' _ _ Hfull Ht0 HR' HV').
-    + (* BNone *)
-      cbn [o_resps o_keep o_ok o_rest existsb rs_close ev orb negb].
-      split; [reflexivity|]. split; [intros _; destruct ka, (eval_close raw); reflexivity|].
-      exact (drop_pos later reqsegs b0 b0 _ _ Hfull Ht0 (R_refl _) HV).
-    + (* BFirst *)
-      destruct (read_to_end_VB later (body_fuel b0) b0 [] payload payload HV eq_refl Hlt) as [b' [_ [E2 [HV' HR']]]].
-      rewrite body_fuel_bext, E2. cbn [o_resps o_keep o_ok o_rest existsb rs_close ev orb negb].
-      split; [reflexivity|]. split; [intros _; destruct ka, (eval_close raw); reflexivity|].
-      exact (drop_pos later reqsegs b0 b' _ _ Hfull Ht0 HR' HV').
-    + (* BHold *)
-      cbn [o_resps o_keep o_ok o_rest existsb rs_close ev orb negb].
-      split; [reflexivity|]. split; [intros _; destruct ka, (eval_close raw); reflexivity|].
-      exact (drop_pos later reqsegs b0 b0 _ _ Hfull Ht0 (R_refl _) HV).
-    + (* BErr *)
-      cbn [o_resps o_keep o_ok o_rest existsb rs_close ev orb negb].
-      split; [reflexivity|]. split; [discriminate|].
-      exact (drop_pos later reqsegs b0 b0 _ _ Hfull Ht0 (R_refl _) HV).
-    + (* BErrAfter *)
-      cbn [o_resps o_keep o_ok o_rest existsb rs_close ev orb negb].
-      split; [reflexivity|]. split; [discriminate|].
-      exact (drop_pos later reqsegs b0 b0 _ _ Hfull Ht0 (R_refl _) HV).
-    + (* BClose *)
-      cbn [o_resps o_keep o_ok o_rest existsb rs_close ev orb negb].
-      split; [reflexivity|]. split; [intros _; destruct ka, (eval_close raw); reflexivity|].
-      exact (drop_pos later reqsegs b0 b0 _ _ Hfull Ht0 (R_refl _) HV).
-    + (* BReader *)
-      cbn [o_resps o_keep o_ok o_rest existsb rs_close ev orb negb].
-      split; [reflexivity|]. split; [intros _; destruct ka, (eval_close raw); reflexivity|].
-      exact (drop_pos later reqsegs b0 b0 _ _ Hfull Ht0 (R_refl _) HV).
-  - (* the hook answers *)
-    cbn [o_resps o_keep o_ok o_rest existsb rs_close ev orb negb].
-    split; [reflexivity|]. split; [intros _; destruct ka, (eval_close raw); reflexivity|].
-    exact (drop_pos later reqsegs b0 b0 _ _ Hfull Ht0 (R_refl _) HV).
-  - cbn [o_resps o_keep o_ok o_rest existsb rs_close ev orb negb].
-    split; [reflexivity|]. split; [intros _; destruct ka, (eval_close raw); reflexivity|].
-    exact (drop_pos later reqsegs b0 b0 _ _ Hfull Ht0 (R_refl _) HV).
+    exfalso. apply Hne. unfold server_framing'. rewrite E. reflexivity. }
+  rewrite Hte, Hh. unfold run_handler. rewrite Hb.
+  rewrite (reader_of_framing _ _ _ Hne).
+  set (lo := skipn (q_offset r) buf) in *.
+  assert (Hinv : exists e b', read_to_end (body_fuel (match server_framing' (q_hdrs r) with
+                    | FChunked => new_chunked lo unread | FFixed n => new_fixed lo unread n | _ => new_empty lo unread end))
+                  (match server_framing' (q_hdrs r) with
+                    | FChunked => new_chunked lo unread | FFixed n => new_fixed lo unread n | _ => new_empty lo unread end) []
+                  = (inr e, b')).
+  { destruct (server_framing' (q_hdrs r)) as [|n| |] eqn:Ef; cbn [view_body] in Hv.
+    - destruct (spec_decode (lo ++ concat unread)) as [p rest|w|] eqn:Es; try discriminate.
+      apply read_to_end_invalid.
+      + cbn [IB new_chunked]. split; [apply Bound_mk|]. exists w. exact Es.
+      + unfold body_fuel, new_chunked. cbn [body_src c_src]. apply (Bound_fuel _ (Bound_mk lo unread)).
+    - destruct (spec_fixed n (lo ++ concat unread)) as [p rest|w|] eqn:Es; try discriminate.
+      unfold spec_fixed in Es. destruct (take_n n (lo ++ concat unread)) as [[d x]|] eqn:Et; [discriminate|].
+      apply take_n_none in Et.
+      apply read_to_end_invalid.
+      + cbn [IB new_fixed f_src f_remaining]. rewrite reach_mk_take.
+        pose proof (lenN_firstnN_le_len n (lo ++ concat unread)). lia.
+      + unfold body_fuel, new_fixed. cbn [body_src f_src]. apply (Bound_fuel _ (Bound_mk_take lo unread n)).
+    - discriminate.
+    - contradiction. }
+  destruct Hinv as [e [b' Hinv]]. rewrite Hinv. cbv iota beta. split; reflexivity.
 Qed.
 
-(* the pinned statement of C07_one_request holds when the request's segments do not end with a
-   segment without bytes (in particular when none of them is empty) *)
-Theorem one_request_boundary_partial : forall a N ka reqsegs later r raw,
-  Forall (fun g => g <> []) reqsegs ->
-  parse_request (firstn N (concat reqsegs)) = Ok r ->
-  raw = raw_fields (firstn N (concat reqsegs)) ->
-  Forall (fun g => g <> []) later ->
-  (exists payload, rfc_framing raw <> FReject /\
-     view_body (rfc_framing raw) (skipn (q_offset r) (concat reqsegs)) = BodyOk payload []) ->
-  let o := handle_one_request a N ka (reqsegs ++ later) in
-  let '(resps, keep, _) := spec_one a r raw (skipn (q_offset r) (concat reqsegs)) in
-  o_resps o = resps /\ (o_ok o = true -> o_keep o = (keep && ka && negb (existsb rs_close resps))) /\
-  (o_ok o = true -> o_keep o = true -> o_rest o = later).
+(* ------------------------------------------------------------------ the connection *)
+Section Conn.
+Variable a : app.
+Variable N : nat.
+Hypothesis Npos : 0 < N.
+
+(* provided by Proofs/ServerConnLocal.v and Proofs/ServerConnLock.v *)
+Hypothesis H_head_prefix : forall s r k, parse_request s = Ok r -> q_offset r <= k ->
+  parse_request (firstn k s) = Ok r /\ raw_fields (firstn k s) = raw_fields s.
+Hypothesis H_lockstep_split : forall sg r payload rest pfx,
+  concat sg = pfx ++ rest -> pfx <> [] ->
+  parse_request (firstn N (concat sg)) = Ok r ->
+  rfc_framing (raw_fields (firstn N (concat sg))) <> FReject ->
+  view_body (rfc_framing (raw_fields (firstn N (concat sg)))) (skipn (q_offset r) (concat sg)) = BodyOk payload rest ->
+  lockstep a N sg = true ->
+  exists reqsegs later, sg = reqsegs ++ later /\ concat reqsegs = pfx /\ concat later = rest /\
+    (forall pre, reqsegs <> pre ++ [[]]) /\
+    lockstep a N later = true /\
+    (known_F21 a N sg = false -> known_F21 a N later = false).
+Hypothesis H_known_F21_bad : forall sg r,
+  concat sg <> [] ->
+  parse_request (firstn N (concat sg)) = Ok r ->
+  rfc_framing (raw_fields (firstn N (concat sg))) <> FReject ->
+  view_body (rfc_framing (raw_fields (firstn N (concat sg)))) (skipn (q_offset r) (concat sg)) = BodyBad ->
+  known_F21 a N sg = false -> reads_body a r = true.
+
+(* the request at the front of a lock-step stream, its body readable: one step of both sides *)
+Lemma conn_step_ok sg r payload rest :
+  parse_request (firstn N (concat sg)) = Ok r ->
+  rfc_framing (raw_fields (firstn N (concat sg))) <> FReject ->
+  view_body (rfc_framing (raw_fields (firstn N (concat sg)))) (skipn (q_offset r) (concat sg)) = BodyOk payload rest ->
+  lockstep a N sg = true -> known_F21 a N sg = false ->
+  let o := handle_one_request a N true sg in
+  let '(resps, keep, rest') := spec_one a r (raw_fields (firstn N (concat sg))) (skipn (q_offset r) (concat sg)) in
+  o_resps o = resps /\ o_eof o = false /\ rest' = (if keep then rest else rest') /\
+  (o_ok o = false -> keep = false) /\
+  (o_ok o = true -> o_keep o = keep) /\
+  (keep = true -> existsb rs_close resps = false /\
+     exists later, o_rest o = later /\ concat later = rest /\ lockstep a N later = true /\ known_F21 a N later = false /\
+                   length rest < length (concat sg)).
 Proof.
-  intros a N ka reqsegs later r raw Hne Hparse Hraw _ Hbody.
-  pose proof (one_request_boundary_gen a N ka reqsegs later r raw Hparse Hraw Hbody) as H.
-  cbv zeta in H |- *.
-  destruct (spec_one a r raw (skipn (q_offset r) (concat reqsegs))) as [[resps keep] rest].
-  destruct H as [H1 [H2 [pre [z [Hz1 [Hz2 Hz3]]]]]].
-  split; [exact H1|]. split; [exact H2|]. intros _ _. rewrite Hz3.
-  assert (z = []) as ->; [|reflexivity].
-  apply concat_nil_nonempty; [|exact Hz2]. rewrite Hz1 in Hne. apply Forall_app in Hne. apply Hne.
+  intros Hp Hne Hv Hls Hf21. set (s := concat sg) in *.
+  set (raw := raw_fields (firstn N s)) in *.
+  pose proof (offset_pos _ _ Hp) as Hoff0.
+  destruct (request_fields_safe _ _ Hp) as [Hoff1 _].
+  rewrite firstn_length in Hoff1.
+  destruct (view_body_cut _ _ _ _ Hv) as [ah' [Hah Hv']].
+  set (pfx := firstn (q_offset r) s ++ ah').
+  assert (Hs : s = pfx ++ rest).
+  { unfold pfx. rewrite <- app_assoc, <- Hah. symmetry. apply firstn_skipn. }
+  assert (Hlen1 : length (firstn (q_offset r) s) = q_offset r) by (apply firstn_length_le; lia).
+  assert (Hpfx : pfx <> []).
+  { unfold pfx. intro C. apply (f_equal (@length byte)) in C. rewrite app_length, Hlen1 in C. cbn [length] in C. lia. }
+  destruct (H_lockstep_split sg r payload rest pfx Hs Hpfx Hp Hne Hv Hls)
+    as [reqsegs [later [Hsg [Hcr [Hcl [Hnt [Hls' Hf21']]]]]]].
+  assert (Hfp : firstn N pfx = firstn (Nat.min N (length pfx)) (firstn N s)).
+  { rewrite firstn_firstn. replace (Nat.min (Nat.min N (length pfx)) N) with (Nat.min N (length pfx)) by lia.
+    rewrite <- (firstn_firstn s N (length pfx)). f_equal. rewrite Hs, firstn_app, Nat.sub_diag, firstn_all.
+    cbn [firstn]. rewrite app_nil_r. reflexivity. }
+  assert (Hlp : q_offset r <= Nat.min N (length pfx)).
+  { unfold pfx. rewrite app_length, Hlen1. lia. }
+  destruct (H_head_prefix (firstn N s) r (Nat.min N (length pfx)) Hp Hlp) as [Hp' Hraw'].
+  rewrite <- Hfp in Hp', Hraw'.
+  assert (Hskip : skipn (q_offset r) pfx = ah').
+  { unfold pfx. rewrite skipn_app, Hlen1, Nat.sub_diag. cbn [skipn].
+    rewrite <- Hlen1 at 1. rewrite skipn_all. reflexivity. }
+  pose proof (one_request_boundary_gen a N true reqsegs later r raw) as G.
+  rewrite Hcr, Hskip in G. specialize (G Hp' (eq_sym Hraw')).
+  assert (Hbody : exists payload0, rfc_framing raw <> FReject /\ view_body (rfc_framing raw) ah' = BodyOk payload0 []).
+  { exists payload. split; assumption. }
+  specialize (G Hbody). cbv zeta in G. rewrite <- Hsg in G.
+  pose proof (spec_one_rest_indep a r raw ah' (skipn (q_offset r) s) payload [] rest Hne Hv' Hv) as Hfst.
+  cbv zeta.
+  destruct (spec_one a r raw ah') as [[resps1 keep1] rest1].
+  destruct (spec_one a r raw (skipn (q_offset r) s)) as [[resps keep] rest'] eqn:Esp.
+  cbn [fst] in Hfst. inversion Hfst. subst resps1 keep1.
+  destruct G as [G1 [G2 [G3 [G4 [pre [z [Gz1 [Gz2 Gz3]]]]]]]].
+  assert (Hz : z = []).
+  { destruct z as [|g z]; [reflexivity|]. exfalso.
+    destruct (concat_nil_last (g :: z) Gz2 ltac:(discriminate)) as [z' Hz'].
+    apply (Hnt (pre ++ z')). rewrite Gz1, Hz', app_assoc. reflexivity. }
+  subst z. cbn [List.app] in Gz3.
+  split; [exact G1|]. split; [exact G4|]. split.
+  { destruct keep eqn:Ek; [|reflexivity]. apply (spec_keep_no_close a r raw _ payload rest resps true rest' Hne Hv Esp eq_refl). }
+  split; [exact G3|]. split.
+  { intros Hok. rewrite (G2 Hok). destruct keep eqn:Ek; [|reflexivity].
+    destruct (spec_keep_no_close a r raw _ payload rest resps true rest' Hne Hv Esp eq_refl) as [Hc _].
+    rewrite Hc. reflexivity. }
+  intros Hk. subst keep.
+  destruct (spec_keep_no_close a r raw _ payload rest resps true rest' Hne Hv Esp eq_refl) as [Hc _].
+  split; [exact Hc|]. exists later. split; [exact Gz3|]. split; [exact Hcl|]. split; [exact Hls'|].
+  split; [exact (Hf21' Hf21)|].
+  rewrite Hs, app_length. destruct pfx; [congruence|]. cbn [length]. lia.
 Qed.
+
+Lemma conn_gen : forall F1 sg acc F2 nreq,
+  length (concat sg) < F1 -> length (concat sg) < F2 ->
+  lockstep a N sg = true -> known_F21 a N sg = false ->
+  snd (spec_conn_f F1 a N (concat sg) acc) <> EUnspec ->
+  c_resps (handle_connection F2 a N true sg acc nreq) = fst (spec_conn_f F1 a N (concat sg) acc) /\
+  (c_waiting (handle_connection F2 a N true sg acc nreq) = true <-> snd (spec_conn_f F1 a N (concat sg) acc) = EWaiting).
+Proof.
+  induction F1 as [|F1 IH]; intros sg acc F2 nreq HF1 HF2 Hls Hf21 Hun; [lia|].
+  destruct F2 as [|F2]; [lia|].
+  assert (Hhf : length (concat sg) < hfuel sg) by (unfold hfuel; lia).
+  cbn [spec_conn_f] in Hun |- *.
+  destruct (concat sg) as [|x s'] eqn:Es.
+  - (* nothing more to read *)
+    assert (Hr : fst (read_request (hfuel sg) N [] sg) = REof).
+    { apply read_request_eof; rewrite ?Es; cbn [firstn length]; try lia.
+      destruct N; [lia|]. reflexivity. }
+    destruct (hor_eof a N true sg Hr) as [O1 [O2 [O3 O4]]].
+    destruct (hc_stop F2 a N true sg acc nreq O3 O2) as [C1 C2].
+    rewrite C1, C2, O1, O4, app_nil_r. cbn [fst snd]. split; [reflexivity|]. split; reflexivity.
+  - assert (Hsne : concat sg <> []) by (rewrite Es; discriminate).
+    rewrite <- Es in *. clear Es x s'.
+    set (s := concat sg) in *.
+    destruct (parse_request (firstn N s)) as [r|e|f] eqn:Ep.
+    + (* a head *)
+      set (raw := raw_fields (firstn N s)) in *.
+      unfold body_unspecified in Hun |- *.
+      destruct (rfc_framing raw) as [|n| |] eqn:Ef.
+      4:{ (* cannot be framed *)
+        destruct (hor_reject a N true sg r Ep Ef) as [O1 [O2 [O3 O4]]].
+        destruct (hc_stop F2 a N true sg acc nreq O3 O2) as [C1 C2].
+        unfold spec_one. fold raw. rewrite Ef. cbn [fst snd].
+        rewrite C1, C2, O1, O4. split; [reflexivity|]. split; discriminate. }
+      all: rewrite <- Ef in *;
+        assert (Hne : rfc_framing raw <> FReject) by (rewrite Ef; discriminate);
+        destruct (view_body (rfc_framing raw) (skipn (q_offset r) s)) as [payload rest| |] eqn:Ev;
+        [ | | exfalso; apply Hun; reflexivity ].
+      all: try (
+        (* readable body *)
+        pose proof (conn_step_ok sg r payload rest Ep Hne Ev Hls Hf21) as St; cbv zeta in St; fold s raw in St;
+        destruct (spec_one a r raw (skipn (q_offset r) s)) as [[resps keep] rest'] eqn:Esp;
+        destruct St as [S1 [S2 [S3 [S4 [S5 S6]]]]];
+        destruct (o_ok (handle_one_request a N true sg)) eqn:Eok;
+        [ destruct keep;
+          [ (* kept *)
+            destruct (S6 eq_refl) as [Hc [later [L1 [L2 [L3 [L4 L5]]]]]];
+            destruct (hc_cont F2 a N true sg acc nreq Eok (S5 eq_refl)) as [n' Hcont];
+            rewrite Hcont, S1, Hc, L1; cbn [negb andb]; subst rest'; rewrite <- L2;
+            apply IH; rewrite ?L2; try assumption; try lia;
+            rewrite <- L2 in Hun; exact Hun
+          | (* not kept *)
+            destruct (hc_stop F2 a N true sg acc nreq Eok (S5 eq_refl)) as [C1 C2];
+            rewrite C1, C2, S1, S2; cbn [fst snd]; split; [reflexivity|]; split; discriminate ]
+        | (* handler error *)
+          rewrite (S4 eq_refl) in *;
+          destruct (hc_err F2 a N true sg acc nreq Eok) as [C1 C2];
+          rewrite C1, C2, S1; cbn [fst snd]; split; [reflexivity|]; split; discriminate ]).
+      all: (* unreadable body: F21 excluded, so the handler reads it all and fails *)
+        pose proof (H_known_F21_bad sg r Hsne Ep Hne Ev Hf21) as Hrb;
+        unfold reads_body in Hrb;
+        destruct (hook_of a r) eqn:Eh; try discriminate;
+        destruct (behaviour_of a r) eqn:Eb; try discriminate;
+        destruct (hor_bad_body a N true sg r Ep Hne Ev Eh Eb) as [O1 O2];
+        destruct (hc_err F2 a N true sg acc nreq O2) as [C1 C2];
+        rewrite (spec_one_bad a r raw _ Hne Ev Eh Eb);
+        cbn [fst snd]; rewrite C1, C2, O1; (split; [reflexivity|]; split; discriminate).
+    + (* no head *)
+      assert (He : e = EEof \/ e <> EEof) by (destruct e; (left; reflexivity) || (right; discriminate)).
+      destruct He as [He|He].
+      * subst e. destruct (Nat.leb N (length s)) eqn:El.
+        -- apply Nat.leb_le in El.
+           pose proof (read_request_too_large (hfuel sg) N sg Ep El Hhf) as Hr.
+           destruct (hor_too_large a N true sg Hr) as [O1 [O2 [O3 O4]]].
+           destruct (hc_stop F2 a N true sg acc nreq O3 O2) as [C1 C2].
+           rewrite C1, C2, O1, O4. cbn [fst snd]. split; [reflexivity|]. split; discriminate.
+        -- apply Nat.leb_gt in El.
+           pose proof (read_request_eof (hfuel sg) N sg Ep El Hhf) as Hr.
+           destruct (hor_eof a N true sg Hr) as [O1 [O2 [O3 O4]]].
+           destruct (hc_stop F2 a N true sg acc nreq O3 O2) as [C1 C2].
+           rewrite C1, C2, O1, O4, app_nil_r. cbn [fst snd]. split; [reflexivity|]. split; reflexivity.
+      * assert (Hr : fst (read_request (hfuel sg) N [] sg) = RInvalid).
+        { apply read_request_invalid; [intros r0; fold s; rewrite Ep; discriminate|fold s; rewrite Ep; congruence|exact Hhf]. }
+        destruct (hor_invalid a N true sg Hr) as [O1 [O2 [O3 O4]]].
+        destruct (hc_stop F2 a N true sg acc nreq O3 O2) as [C1 C2].
+        rewrite C1, C2, O1, O4. destruct e; try congruence; cbn [fst snd]; (split; [reflexivity|]; split; discriminate).
+    + exfalso. destruct (parsers_never_fault (firstn N s)) as [Hq _]. exact (Hq f Ep).
+Qed.
+
+End Conn.
+
+(* ------------------------------------------------------------------ the pinned statement, C07_transcript *)
+(* The statement of C07_transcript needs one more hypothesis: with a head limit N = 0 and no input at
+   all the server answers 431 at once while the specification is still waiting
+   (counterexample: N = 0, segs = []).  [N = 0 -> concat segs <> []] is the weakest such hypothesis. *)
+Theorem conn_transcript_partial : forall a N segs,
+  (N = 0 -> concat segs <> []) ->
+  lockstep a N segs = true -> known_F21 a N segs = false ->
+  snd (spec_conn a N (concat segs)) <> EUnspec ->
+  c_resps (serve_conn a N segs) = fst (spec_conn a N (concat segs)) /\
+  (c_waiting (serve_conn a N segs) = true <-> snd (spec_conn a N (concat segs)) = EWaiting).
+Proof.
+  intros a N segs HN Hls Hf21 Hun. unfold serve_conn, spec_conn in *.
+  destruct N as [|N].
+  - specialize (HN eq_refl). cbn [spec_conn_f]. destruct (concat segs) as [|x s'] eqn:Es; [congruence|].
+    rewrite <- Es. cbn [firstn]. rewrite parse_request_nil. cbn [Nat.leb fst snd].
+    assert (Hr : fst (read_request (hfuel segs) 0 [] segs) = RTooLarge).
+    { apply read_request_too_large; [cbn [firstn]; apply parse_request_nil|lia|unfold hfuel; lia]. }
+    destruct (hor_too_large a 0 true segs Hr) as [O1 [O2 [O3 O4]]].
+    destruct (hc_stop (length segs + length (concat segs)) a 0 true segs [] 0 O3 O2) as [C1 C2].
+    change (S (length segs) + length (concat segs)) with (S (length segs + length (concat segs))).
+    rewrite C1, C2, O1, O4. split; [reflexivity|]. split; discriminate.
+  - apply (conn_gen a (S N) ltac:(lia) head_prefix
+             (ServerConnLock.lockstep_split view_suffix offset_pos a (S N)) (ServerConnLock.known_F21_bad a (S N)));
+      try assumption; lia.
+Qed.
+
+Corollary conn_transcript_pos : forall a N segs, 0 < N ->
+  lockstep a N segs = true -> known_F21 a N segs = false ->
+  snd (spec_conn a N (concat segs)) <> EUnspec ->
+  c_resps (serve_conn a N segs) = fst (spec_conn a N (concat segs)) /\
+  (c_waiting (serve_conn a N segs) = true <-> snd (spec_conn a N (concat segs)) = EWaiting).
+Proof. intros a N segs HN. apply conn_transcript_partial. lia. Qed.
